@@ -75,13 +75,14 @@ def rule_module_callback(rep: Report, repo: Repo, rule: str) -> None:
             if e[0] == "push" and e[1] == lm.entries:
                 ob = st.obj(e[2])
                 nm, doc = show(ob["fields"]["name"]), show(ob["fields"]["doc"])
-                base_ok = "clean_doc_lines" in nm and ".split('\\n')[0]" in nm and "Module_docstring().getText()" in nm
+                first_line = any(x in nm for x in (".split('\\n')[0]", ".partition('\\n')[0]", ".split('\\n', 1)[0]"))
+                base_ok = "clean_doc_lines" in nm and first_line and "Module_docstring().getText()" in nm
                 removes = "'@module'" in nm or "@module" in nm
                 trims = any(x in nm for x in (".strip(", "re.sub(", "re.match(", ".lstrip(", ".split("))
                 rep.check(base_ok and removes and trims, rule,
                           f"cminx.aggregator:{lm.cls}.enterDocumented_module", f"name = {nm[:100]}",
                           "the module name is not the first cleaned doccomment line with '@module' removed and surrounding blanks trimmed")
-                rep.check("'\\n'.join(" in doc and "[1:]" in doc and "clean_doc_lines" in doc, rule,
+                rep.check((("'\\n'.join(" in doc and "[1:]" in doc) or ".partition('\\n')[2]" in doc) and "clean_doc_lines" in doc, rule,
                           f"cminx.aggregator:{lm.cls}.enterDocumented_module", f"doc = {doc[:90]}",
                           "the module body is not the remaining doccomment lines")
     rep.floor(rule, 3, "module callback facts")
